@@ -615,6 +615,33 @@ u64::MAX and >2^64 counts; '+' and leading zeros; names with commas, colons, UTF
         cases.push(TieCase { req: text_req(&bytes), impl_out: out, site, bytes, json_text: None, is_text: true, oracle_failed: false });
     }
 
+    // ---- text, long lines with multi-byte characters at every alignment (C14 / seed C14-5) ------
+    for c in text::long_line_cases() {
+        let (out, site) = impl_text(&ctx, &c.bytes);
+        rep.case(&hex(&c.bytes), true);
+        let kind: String = c.label.split('.').take(2).collect::<Vec<_>>().join(".");
+        rep.count(&format!("text.longline.{}", kind));
+        rep.count(if c.well_formed { "text.longline.well_formed" } else { "text.longline.malformed" });
+        rep.count(&format!("text.longline.outcome.{}", out.split(' ').take(if out.starts_with("err") { 2 } else { 1 }).collect::<Vec<_>>().join("_")));
+        let failed = out != c.expected;
+        if failed && out != "panic" {
+            // (a panic is reported by the robustness oracle below, with its site)
+            rep.fail(
+                "oracle",
+                None,
+                format!(
+                    "long line ({}): parse_gcov gives {} instead of {}",
+                    c.label,
+                    out.chars().take(120).collect::<String>(),
+                    c.expected.chars().take(120).collect::<String>()
+                ),
+                json!({"op": "gcov.text", "input_hex": hex(&c.bytes), "input": String::from_utf8_lossy(&c.bytes),
+                       "impl": out, "spec": c.expected}),
+            );
+        }
+        cases.push(TieCase { req: text_req(&c.bytes), impl_out: out, site, bytes: c.bytes, json_text: None, is_text: true, oracle_failed: failed });
+    }
+
     // ---- JSON, well-formed ------------------------------------------------------------------
     let n = rep.budget(1_500, 30);
     for i in 0..n {
